@@ -1,6 +1,13 @@
-"""C03 — see DESIGN.md section 5 "C03" and checks/lkcommon.py."""
+"""C03 — see DESIGN.md section 5 "C03" and checks/lkcommon.py. The clause "returns without the lock promptly ... when the server
+shuts down" is also exercised on the real binary: the part of C11's T4 matrix in which calls are blocked at the signal (the order of the
+closer's steps in cmd/server/main.go is outside T1/T2, whose harnesses perform the shutdown steps themselves)."""
 from checks import lkcommon
+from checks import c11
 
 
 def run(ctx):
     lkcommon.run(ctx, "C03")
+    if ctx.replay:
+        return
+    c11.t4_stage(ctx, situations=("blocked", "blocked_wt", "mixed"), clauses=("exit0", "prompt", "nopanic", "blocked_error", "no_hang"))
+    ctx.assumptions += ["T4 (blocked calls at SIGINT/SIGTERM on the real binary): 'promptly' = the blocked call has its answer and the process has exited within 5000 ms of the signal"]
